@@ -9,10 +9,193 @@ double GammaPser(double x, double a);
 double GammaQcf(double x, double a);
 }	// namespace libphysica
 using namespace libphysica;
-static void handler(vh::Reader& r, vh::Out& o)
+#include <cerrno>
+#include <sys/socket.h>
+
+// ---------- one call of the family, as it appears inside a "seq" case ----------
+//   gammaln x | gamma x | gammaq x a | gammap x a | upper x a | lower x a | invp p a | invq q a | fact n | binom n k
+static double one_call(vh::Reader& r)
 {
 	std::string op = r.word();
 	if(op == "fact")
+		return Factorial((unsigned int) r.integer());
+	if(op == "binom")
+	{
+		long n = r.integer(), k = r.integer();
+		return Binomial_Coefficient((int) n, (int) k);
+	}
+	if(op == "gammaln")
+		return GammaLn(r.num());
+	if(op == "gamma")
+		return Gamma(r.num());
+	double u = r.num(), a = r.num();
+	if(op == "gammaq")
+		return GammaQ(u, a);
+	if(op == "gammap")
+		return GammaP(u, a);
+	if(op == "upper")
+		return Upper_Incomplete_Gamma(u, a);
+	if(op == "lower")
+		return Lower_Incomplete_Gamma(u, a);
+	if(op == "invp")
+		return Inv_GammaP(u, a);
+	if(op == "invq")
+		return Inv_GammaQ(u, a);
+	fprintf(stderr, "harness: unknown call %s\n", op.c_str());
+	_exit(77);
+}
+static bool is_value(const std::string& t) { return t == "nan" || t == "inf" || t == "-inf" || t.compare(0, 2, "0x") == 0 || t.compare(0, 3, "-0x") == 0; }
+static size_t call_arity(const std::string& op) { return (op == "gammaln" || op == "gamma" || op == "fact") ? 1 : 2; }
+
+// ---------- pristine-process server ----------
+// Started by main() before any library function has run.  A request "<id> <m> call_1 .. call_m" is answered by a
+// process forked from the server (so: a process in which no library function has been called yet) that makes the m
+// calls one after the other and replies "<id> v_1 .. v_m"; when the library ends that process the reply is
+// "<id> EXIT" (TIMEOUT, CRASH sig=n, SANITIZER n).  A "seq" case asks once for the whole history and once per call
+// for the answer of a fresh process, so its result does not depend on what the worker has run before.
+static int g_srv = -1;
+static bool read_line(int fd, std::string& l)
+{
+	l.clear();
+	char c;
+	for(;;)
+	{
+		ssize_t n = read(fd, &c, 1);
+		if(n == 0)
+			return false;
+		if(n < 0)
+		{
+			if(errno == EINTR)
+				continue;
+			return false;
+		}
+		if(c == '\n')
+			return true;
+		l.push_back(c);
+	}
+}
+static void write_all(int fd, const std::string& s)
+{
+	size_t k = 0;
+	while(k < s.size())
+	{
+		ssize_t n = write(fd, s.data() + k, s.size() - k);
+		if(n <= 0)
+		{
+			if(n < 0 && errno == EINTR)
+				continue;
+			return;
+		}
+		k += (size_t) n;
+	}
+}
+static void start_server()
+{
+	int sv[2];
+	if(socketpair(AF_UNIX, SOCK_STREAM, 0, sv) != 0)
+		return;
+	fflush(stdout);
+	fflush(stderr);
+	pid_t pid = fork();
+	if(pid != 0)
+	{
+		close(sv[1]);
+		g_srv = sv[0];
+		return;
+	}
+	close(sv[0]);
+	signal(SIGPIPE, SIG_IGN);
+	int fd = sv[1];
+	std::string l;
+	while(read_line(fd, l))
+	{
+		vh::Reader r(l);
+		std::string id = r.word();
+		pid_t g		   = fork();
+		if(g == 0)
+		{
+			int nul = open("/dev/null", O_WRONLY);
+			dup2(nul, 1);
+			dup2(nul, 2);
+			alarm(20);
+			long m = r.integer();
+			vh::Out o;
+			for(long j = 0; j < m; j++)
+				o.f(one_call(r));
+			write_all(fd, id + " " + o.s.str() + "\n");
+			_exit(0);
+		}
+		int st = 0;
+		waitpid(g, &st, 0);
+		if(WIFEXITED(st) && WEXITSTATUS(st) == 0)
+			continue;
+		std::string why;
+		if(WIFEXITED(st) && (WEXITSTATUS(st) == 99 || WEXITSTATUS(st) == 98))
+			why = "SANITIZER " + std::to_string(WEXITSTATUS(st));
+		else if(WIFEXITED(st) && WEXITSTATUS(st) == 77)
+			why = "HARNESSERR";
+		else if(WIFEXITED(st))
+			why = "EXIT";
+		else if(WIFSIGNALED(st) && WTERMSIG(st) == SIGALRM)
+			why = "TIMEOUT";
+		else
+			why = "CRASH sig=" + std::to_string(WIFSIGNALED(st) ? WTERMSIG(st) : 0);
+		write_all(fd, id + " " + why + "\n");
+	}
+	_exit(0);
+}
+// the reply to "m calls" from a pristine process (without the id)
+static std::string ask_server(const std::string& calls, long m)
+{
+	static long counter = 0;
+	std::string id		= std::to_string((long) getpid()) + "." + std::to_string(++counter);
+	write_all(g_srv, id + " " + std::to_string(m) + " " + calls + "\n");
+	std::string l;
+	while(read_line(g_srv, l))
+	{
+		// replies to requests of a worker that died meanwhile are skipped
+		if(l.compare(0, id.size() + 1, id + " ") == 0)
+			return l.substr(id.size() + 1);
+	}
+	return "HARNESSERR server_gone";
+}
+
+static void handler(vh::Reader& r, vh::Out& o)
+{
+	std::string op = r.word();
+	if(op == "seq")
+	{
+		// seq m call_1 .. call_m : a history of calls in ONE process that has run nothing else before, and next to each
+		// answer the answer of a fresh process to the same call.  Output: m h_1 f_1 .. h_m f_m
+		long m = r.integer();
+		std::vector<std::string> calls;
+		std::string all;
+		for(long j = 0; j < m; j++)
+		{
+			std::string c = r.word();
+			size_t ar	  = call_arity(c);
+			for(size_t k = 0; k < ar; k++)
+				c += " " + r.word();
+			calls.push_back(c);
+			all += (j ? " " : "") + c;
+		}
+		std::string hist = ask_server(all, m);
+		vh::Reader hr(hist);
+		if(hr.t.size() != (size_t) m || !is_value(hr.t[0]))
+		{
+			o.w(hist);	 // EXIT, TIMEOUT, CRASH sig=n, SANITIZER n
+			return;
+		}
+		o.i(m);
+		for(long j = 0; j < m; j++)
+		{
+			o.w(hr.t[j]);
+			std::string fr = ask_server(calls[j], 1);
+			vh::Reader fr_r(fr);
+			o.w(fr_r.t.size() == 1 && is_value(fr) ? fr : std::string("FRESH_") + fr_r.t[0]);
+		}
+	}
+	else if(op == "fact")
 	{
 		// a history of Factorial calls; the memo table is whatever earlier cases of this worker left behind
 		std::vector<long> ns = r.ilist();
@@ -100,4 +283,8 @@ static void handler(vh::Reader& r, vh::Out& o)
 	else
 		o.w("HARNESSERR unknown_op");
 }
-int main(int argc, char** argv) { return vh::run(argc, argv, handler); }
+int main(int argc, char** argv)
+{
+	start_server();
+	return vh::run(argc, argv, handler);
+}
